@@ -809,4 +809,21 @@ example (A : Set (Fin 3 → ℝ)) :
     μL ((fun q => Matrix.toLin' (Matrix.of ![![0, -1, 0], ![1, 0, 0], ![0, 0, (1:ℝ)]]) (q - ![1, 2, 3]) + ![1, 2, 3]) '' A) = μL A :=
   rotation3_invariant _ _ (by simp [Matrix.det_fin_three]) A
 
+/-! ## 7. the count over the whole (density, volume) plane -/
+
+/-- `compute_n_from_density` returns `n` exactly when `n − 1 < d·v ≤ n` — for EVERY magnitude of `d·v` -/
+theorem densityCount_eq_iff (d v : ℚ) (n : ℤ) : densityCount d v = n ↔ (n : ℚ) - 1 < d * v ∧ d * v ≤ n := by
+  rw [densityCount_eq_ceil, Int.ceil_eq_iff]
+
+/-- however small the shape or sparse the density: a positive `d·v ≤ 1` asks for exactly one point (never zero) -/
+theorem densityCount_tiny (d v : ℚ) (h0 : 0 < d * v) (h1 : d * v ≤ 1) : densityCount d v = 1 :=
+  (densityCount_eq_iff d v 1).2 ⟨by simpa using h0, by simpa using h1⟩
+
+/-- a product just above an integer, by however little, asks for one more point -/
+theorem densityCount_just_above (d v : ℚ) (n : ℤ) (h0 : (n : ℚ) < d * v) (h1 : d * v ≤ n + 1) : densityCount d v = n + 1 :=
+  (densityCount_eq_iff d v (n + 1)).2 ⟨by push_cast; linarith, by push_cast; linarith⟩
+
+example : densityCount 10 (1 / 1000000) = 1 ∧ densityCount (1 / 100000) 1 = 1 ∧ densityCount 1 (30 + 1 / 32768) = 31 := by
+  decide +kernel
+
 end TPV.Geom
